@@ -139,6 +139,17 @@ def replay_case(ctx, case):
 
 def run(ctx):
     names = sorted(ops.OPS)
+    # every registered operation once with the FIRST of three directions carrying non-finite higher coefficients (leftovers of an
+    # earlier direction in a shared scratch buffer reach the later ones), on every run
+    for name in names:
+        for bad_val in (float('inf'), float('nan')):
+            case = ops.gen_case(ctx.rng, ctx.tier, name, P=3, D=3)
+            case.update({'poisoned': True, 'bad_dir': 0, 'bad_val': bad_val})
+            ctx.evaluations += 1
+            ctx.count('poisoned-direction-systematic')
+            f = poisoned_direction_fails(case)
+            if f:
+                ctx.report(case, 'failure', f)
     n = len(names) * (8 if ctx.tier == 'quick' else 100)
     for i in range(n):
         name = names[i % len(names)]
